@@ -88,7 +88,7 @@ def do_check(tier, seed, t0):
     layers = {}
 
     # ---- layer A1: native session simulator
-    n = 120 if tier == "quick" else 6000
+    n = 120 if tier == "quick" else 3000
     a = drive(seed, n, 0, 1 if tier == "quick" else 8, "a1")
     if a["error_count"]:
         raise Harness("sessim harness errors: %s" % a["errors"])
